@@ -130,7 +130,7 @@ def check(cm: ClassModel, depth: int = 2) -> tuple[int, dict[str, str]]:
             for t in allnodes:
                 o = t.obj
                 assert o is not None
-                ok, toks = guard("Pair.tokens", lambda o=o: cm.call(o, "tokens"))
+                ok, toks = guard("Pair.tokens", lambda o=o: list(cm.call(o, "tokens")))
                 if ok:
                     got = [(k.kinds[0], k.rule.name if isinstance(k.rule, Obj) else None, k.pos) for k in toks]
                     if got != t.tokens():
@@ -166,7 +166,7 @@ def check(cm: ClassModel, depth: int = 2) -> tuple[int, dict[str, str]]:
                 if not isinstance(kids, list) or [id(x) for x in kids] != [id(c.obj) for c in t.children]:
                     fail("Pair.__init__", f"{desc}: node {t.name}: children are not stored in order")
             # --- forest accessors
-            ok, toks = guard("Pairs.tokens", lambda: cm.call(pairs, "tokens"))
+            ok, toks = guard("Pairs.tokens", lambda: list(cm.call(pairs, "tokens")))
             want = [x for t in roots for x in t.tokens()]
             if ok and [(k.kinds[0], k.rule.name, k.pos) for k in toks] != want:
                 fail("Pairs.tokens", f"{desc}: yields {[(k.kinds[0], k.rule.name, k.pos) for k in toks]}, the forest has {want}")
